@@ -6,7 +6,7 @@ import time
 from . import runner
 
 MAX_REPLAYS_PER_TASK = 3
-MAX_PROBES_PER_TASK = 4
+MAX_PROBES_PER_TASK = 6
 
 
 def run_symx_check(mod, tier, seed, only=None, procs=None, extra_cov=None, pre_verdicts=None):
@@ -59,9 +59,14 @@ def run_symx_check(mod, tier, seed, only=None, procs=None, extra_cov=None, pre_v
             else:
                 V.harness.append("task %s: replay failed: %s" % (r["task"], str(verdict)[:300]))
         # concolic probe of inconclusive paths: a model of the path condition is run natively against the oracle
-        for inc in [i for i in r["inconclusive"] if i.get("witness")][:MAX_PROBES_PER_TASK]:
+        wits = []
+        for inc in [i for i in r["inconclusive"] if i.get("witness")]:
+            for w in inc["witness"]:
+                if w not in wits:
+                    wits.append(w)
+        for w in wits[:MAX_PROBES_PER_TASK]:
             try:
-                spec = mod.build_spec(task, {"witness": inc["witness"], "info": {}})
+                spec = mod.build_spec(task, {"witness": w, "info": {}})
             except Exception:
                 continue
             nrep += 1
